@@ -305,6 +305,21 @@ func TestC19(t *testing.T) {
 			}
 		})
 	}
+	// realistic bodies behind the scheme: what follows the scheme word must not matter
+	rests := []string{"", "x", "void(0)", "void(0);", "void(0);alert(document.cookie)", "void 0", ";", "//", "alert('&#8364;')", "alert('\u20ac')", "alert(&#x20AC;)", "&#256;", "&#xFFFF;x", "&#x1000FF;", "&#x100100;", "%0aalert(1)", "history.back()", "false", "return false", "text/html,<b>", "text/html;base64,PHNjcmlwdD4=", "image/png;base64,iVBOR", ",", "http://example.com/", strings.Repeat("a", 300), strings.Repeat("&#8364;", 50), "&", "&#", "&#x", "\x00", "\n", "#", "?"}
+	p = c.rec.NewPart("scheme_bodies", fmt.Sprintf("4 schemes x 7 uniform encodings x %d bodies behind the scheme (placeholders such as void(0), references of 256 and more, long bodies, data: media types) x 3 junk prefixes", len(rests)), false, true, "")
+	c.ParRange(p, int64(len(c19Schemes)*7*len(rests)), func(w *Worker, i int64) {
+		sc := c19Schemes[int(i)%len(c19Schemes)]
+		fam := int(i) / len(c19Schemes) % 7
+		rest := rests[int(i)/len(c19Schemes)/7]
+		var all uint64
+		for k := 0; k < len(sc); k++ {
+			all = all*7 + uint64(fam)
+		}
+		for _, junk := range []string{"", " ", "\x01\t"} {
+			w.Judge(ev.Case{Kind: "url", N: int(i), In: junk + encodeScheme(sc, all) + rest})
+		}
+	})
 	p = c.rec.NewPart("view_source_families", "view-source: with each encoding family applied to every single byte and to all bytes", false, true, "")
 	c.ParRange(p, 12*7, func(w *Worker, i int64) {
 		pos, fam := int(i/7), int(i%7)
